@@ -779,6 +779,13 @@ class TaskGroup(abc.TaskGroup):
 
             loop = get_running_loop()
             try:
+                if not self._tasks:
+                    # If there are no child tasks to wait on, run at least one checkpoint
+                    # anyway
+                    await AsyncIOBackend.cancel_shielded_checkpoint()
+
+                # Check again, as a task holding a reference to this task group may have
+                # started a new child task during the checkpoint above
                 if self._tasks:
                     with CancelScope() as wait_scope:
                         while self._tasks:
@@ -802,10 +809,6 @@ class TaskGroup(abc.TaskGroup):
                                     exc_val = exc
 
                             self._on_completed_fut = None
-                else:
-                    # If there are no child tasks to wait on, run at least one checkpoint
-                    # anyway
-                    await AsyncIOBackend.cancel_shielded_checkpoint()
 
                 if self._exceptions:
                     # The exception that got us here should already have been
